@@ -176,6 +176,9 @@ pub fn uni_decision<const REP: u8, const ALG: u8, const H: usize, const N: usize
     kani::assume(ALG < PREFIX || (no_vt(&i.hay) && no_vt(&i.needle)));
     let mut m = small_matcher(i.cfg.clone(), crate::fuzzy_optimal::verif_optimal::SLAB);
     let r = call::<REP, ALG, false, H, N>(&mut m, &i, &mut Vec::new());
+    // frame: a call must not change the configuration (C10: the result of later calls depends only
+    // on their arguments and the configuration the caller set)
+    assert!(m.config == i.cfg, "the call leaves the matcher's configuration untouched");
     let spec = spec_relation::<ALG, H, N>(&i);
     assert!(r.is_some() == spec.is_some(), "the entry point succeeds exactly when the documented relation holds, whatever the representation");
     kani::cover!(if N <= H { r.is_some() } else { r.is_none() });
@@ -190,6 +193,7 @@ pub fn uni_witness<const REP: u8, const ALG: u8, const H: usize, const N: usize,
     let mut idx = Vec::with_capacity(N + 2);
     idx.push(p0);
     let r = call::<REP, ALG, true, H, N>(&mut m, &i, &mut idx);
+    assert!(m.config == i.cfg, "the call leaves the matcher's configuration untouched");
     let spec = spec_relation::<ALG, H, N>(&i);
     assert!(r.is_some() == spec.is_some(), "the indices entry point succeeds exactly when the documented relation holds");
     assert!(idx[0] == p0, "earlier content of the indices vector is untouched");
